@@ -56,6 +56,8 @@ type rtCheck struct {
 	// Multipart lets a share of the body-carrying methods be MultipartRequest() endpoints (gen/multipart.go), driven
 	// with the lab's multipart codec (rt/multipart.go).
 	Multipart bool
+	// MultipartFew: a third of that share (C14 cannot decide multipart exchanges).
+	MultipartFew bool
 }
 
 type rtWitness struct {
@@ -161,7 +163,7 @@ func runRuntime(c *rtCheck) {
 		var specs []*spec.Spec
 		for i := 0; i < n; i++ {
 			prof := c.Profiles[(idx+i)%len(c.Profiles)]
-			s := gen.Generate(run.Rand(2, uint64(idx+i)), fmt.Sprintf("%d", idx+i), gen.Opts{Profile: prof, Runtime: true, Thorough: run.Thorough(), Files: c.AllowFiles, Streams: c.Streams, Unions: c.Unions, Multipart: c.Multipart})
+			s := gen.Generate(run.Rand(2, uint64(idx+i)), fmt.Sprintf("%d", idx+i), gen.Opts{Profile: prof, Runtime: true, Thorough: run.Thorough(), Files: c.AllowFiles, Streams: c.Streams, Unions: c.Unions, Multipart: c.Multipart, MultipartFew: c.MultipartFew})
 			s.AddFeature("profile-" + prof)
 			specs = append(specs, s)
 		}
@@ -379,7 +381,7 @@ func runDesigns(run *vc.Run, c *rtCheck, dir string, specs []*spec.Spec, mk func
 			}
 			conclusive++
 			countUnions(run, ex) // union.go
-			countMultipart(run, d.Spec, ex) // multipart.go
+			countMultipart(run, d.Spec, ex)
 			for _, f := range v.Findings {
 				if verbose {
 					fmt.Printf("FINDING %s: %s\n", f.Key, f.What)
